@@ -319,15 +319,16 @@ PLANS = {"C06": plan_c06, "C17": plan_python, "C18": plan_python}
 
 def setup(ck):
     rc = 0
-    for variant in ("asan",):
+    for variant in ("asan", "release", "debug"):
         try:
             ck.build_harness(variant)
         except ck.Inconclusive as e:
             print("setup: %s" % e)
             rc = 1
-    try:
-        build_pyharness(ck)
-    except ck.Inconclusive as e:
-        print("setup: %s" % e)
-        rc = 1
+    for ovf in (False, True):
+        try:
+            build_pyharness(ck, overflow_checks=ovf)
+        except ck.Inconclusive as e:
+            print("setup: %s" % e)
+            rc = 1
     return rc
